@@ -428,5 +428,20 @@ func TestGrid(t *testing.T) {
 			}
 			rec.Exhaustive("body length 0..255 for " + s.ID())
 		}
+		if cf != nil && lf != nil {
+			// the two axes TOGETHER (length arithmetic is about sums and products of both): the diagonals, the
+			// corners and a pseudo-random sample of the 256 x 256 grid that the thorough tier enumerates completely
+			sm := vk.SplitMix(uint64(env.Seed)*977 + 13)
+			for i := 0; i < 256; i++ {
+				do(i, i)
+				do(i, 255-i)
+				do(255, i)
+				do(i, 255)
+			}
+			for i := 0; i < 1500; i++ {
+				do(sm.Intn(256), sm.Intn(256))
+			}
+			rec.Class("grid_both_axes")
+		}
 	}
 }
